@@ -172,9 +172,9 @@ func (self *visitorUserNode) OnNull() error {
 		self.inskip = false
 		return nil
 	}
-	// self.stk[self.sp].val = &visitorUserNull{}
-	if err := self.incrSP(); err != nil {
-		return err
+	// a null member denotes an absent field (or an empty map value): nothing is written and no stack slot is taken
+	if self.globalFieldDesc == nil && self.stk[self.sp].typ == arrStkType {
+		return newError(meta.ErrDismatchType, "null isn't a valid list element", nil)
 	}
 	return self.onValueEnd()
 }
